@@ -44,6 +44,7 @@ EXPORTS = {
     "quick": [
         ("EX_paths_T1_d3.cfg", "H", "T1", "At1_2", None),
         ("EX_paths_T1s_d4.cfg", "H", "T1", "At1_same", None),
+        ("EX_paths_T1m_d7.cfg", "H", "T1", "At1_2", None),
         ("EX_paths_T2_d3.cfg", "H", "T2", "At2_3", 700),
         ("EX_edges_T1_d2.cfg", "T", "T1", "At1_3", 800),
         ("EX_edges_T3_d2.cfg", "T", "T3", "At3_5", 500),
@@ -51,6 +52,8 @@ EXPORTS = {
     "thorough": [
         ("EX_paths_T1_d4.cfg", "H", "T1", "At1_2", None),
         ("EX_paths_T1s_d4.cfg", "H", "T1", "At1_same", None),
+        ("EX_paths_T1m_d5.cfg", "H", "T1", "At1_2", None),
+        ("EX_paths_T1m_d7.cfg", "H", "T1", "At1_2", None),
         ("EX_paths_T1f_d3.cfg", "H", "T1", "At1_same", None),
         ("EX_paths_T1f_d4.cfg", "H", "T1", "At1_same", 20000),
         ("EX_paths_T2_d3.cfg", "H", "T2", "At2_3", None),
@@ -71,13 +74,28 @@ SIMS = {
 }
 MODELS = {
     "quick": [("MC_T1_d3.cfg", "T1: 3 hosts, destinations host|unknown|broadcast|filtered, shapes a/l, gaps 11/31, histories <= 4"),
+              ("MC_T1m_d7.cfg", "T1: two hosts in conversation, one moving between two ports, histories <= 8"),
               ("MC_T2_d2.cfg", "T2: 2 switches, 3 hosts, histories <= 3"),
               ("MC_T3_d2.cfg", "T3: 3 switches, 3 hosts, histories <= 3")],
     "thorough": [("MC_T1_d4.cfg", "T1: 3 hosts, all destination classes, shapes a/l, gaps 11/31, histories <= 5"),
                  ("MC_T1same_d4.cfg", "T1: 2 hosts behind one port, shapes a/b/l, histories <= 5"),
+                 ("MC_T1m_d7.cfg", "T1: two hosts in conversation, one moving between two ports, histories <= 8"),
                  ("MC_T2_d4.cfg", "T2: 2 switches, 3 hosts, histories <= 5"),
                  ("MC_T3_d4.cfg", "T3: 3 switches, 3 hosts, histories <= 5")],
 }
+
+
+
+def _narrow(beh):
+  """EX_paths_T1m_*: TLC also prints the paths whose last step leaves the family (CONSTRAINT Narrow)."""
+  return all((st["a"] != "Send" or st["args"]["h"] != st["args"]["dst"]) and
+             (st["a"] != "Move" or st["args"]["h"] == 1) for st in beh)
+
+
+FILTERS = {"EX_paths_T1m_d5.cfg": _narrow, "EX_paths_T1m_d7.cfg": _narrow}
+# models of the component as built, each expected to violate Conforms (thorough tier)
+AS_BUILT = [("MC_asbuilt.cfg", "drop flow without ingress port (finding 01)"),
+            ("MC_asbuilt2.cfg", "no flow deletion when a source shows up on a new port (finding 03)")]
 
 _diag = re.compile(r'^<<"DIAG", (\d+), (\d+), (.*), (\d+), (\d+), (\d+)>>$')
 
@@ -228,9 +246,11 @@ def run(ctx):
   jobs = [mc(c) for c, _ in MODELS[tier]] + \
          [sim(c, n, d, k) for k, (c, _, _, n, d) in enumerate(sims)] + \
          [ex(c) for c, _, _, _, _ in exports]
-  if not quick:
-    jobs.append(lambda: tlc.run("learning", "MCLearningNet", "MC_asbuilt.cfg", tag="C11", workers=2,
-                                coverage=False, expect_violation=True))
+  def asb(cfg):
+    return lambda: tlc.run("learning", "MCLearningNet", cfg, tag="C11", workers=2, coverage=False,
+                           expect_violation=True)
+  nab = 0 if quick else len(AS_BUILT)
+  jobs += [asb(c) for c, _ in AS_BUILT[:nab]]
   t0 = time.time()
   res = _par(jobs, n=8)
   phases = dict(tlc_model_and_export_s=round(time.time() - t0, 1))
@@ -256,21 +276,21 @@ def run(ctx):
                          % (r.violated, cfg, r.error_trace[:3000]))
     ctx.add_model("LearningNet %s: %d random histories of length %d (all invariants + Conforms checked)"
                   % (topo, num, depth), r, config=cfg)
-  if not quick:
-    r = res[-1]
-    if r.violated != "Conforms":
-      raise tlc.TLCError("model of the component AS BUILT (drop flow without ingress port) was expected to "
-                         "violate Conforms, TLC says: %s" % r.violated)
-    ctx.notes["as_built_model"] = ("MC_asbuilt.cfg (DropInPort = FALSE, the drop flow as l2_learning installs "
-                                   "it) violates Conforms as expected: TLC's counterexample is the history "
-                                   "reported as finding 01")
-    res = res[:-1]
+  if nab:
+    for (cfg, what), r in zip(AS_BUILT, res[-nab:]):
+      if r.violated != "Conforms":
+        raise tlc.TLCError("model of the component AS BUILT (%s, %s) was expected to violate Conforms, "
+                           "TLC says: %s" % (cfg, what, r.violated))
+    ctx.notes["as_built_models"] = {cfg: "violates Conforms as expected: " + what for cfg, what in AS_BUILT}
+    res = res[:-nab]
 
   # ---- 2. behaviours -> inputs for the real code
   items = []
   per_export = {}
   for (cfg, tag, topo, at, cap), r in zip(exports, res[nm + ns_:]):
     behs = r.tagged(tag)
+    if cfg in FILTERS:
+      behs = [b for b in behs if FILTERS[cfg](b)]
     if not behs:
       raise tlc.TLCError("no behaviours exported by %s" % cfg)
     total = len(behs)
